@@ -305,7 +305,8 @@ func searchCases(seed uint64, round, n, total int) []tcase {
 
 // stage-2 targets that have a Gallina model (C16ParseModel.v ...): `corr` feeds them the SAME hostile
 // generators as the search and compares outcome class and projected values with the extracted model
-var stage2Modelled = []string{"avc.ParseSPSNALUnit", "avc.ParsePPSNALUnit", "avc.ParseSliceHeader", "avc.ParsePSAndSlice"}
+var stage2Modelled = []string{"avc.ParseSPSNALUnit", "avc.ParsePPSNALUnit", "avc.ParseSliceHeader", "avc.ParsePSAndSlice",
+	"avc.GetSliceTypeFromNALU"}
 
 func stage2CorrCases(seed uint64, round, n, total int) []tcase {
 	return casesFor(stage2Modelled, seed, round, n/20)
